@@ -7,6 +7,9 @@ CHECKS = {
  "C01": dict(technique=DBE + "; complete products for block structure (<=4 blocks x 0..2 lines), label alphabet (73 chars x 3 positions + all punctuation pairs) and 108 numeric literal forms",
              text="Every generated .dec text inside the stated bounds is parsed by the real DecFileParser and every table field (mother order, line order, bf, daughters, PHOTOS, model, typed parameters) is compared with the AST it was rendered from; packed and unpacked; bounded exhaustive.",
              note="Bounds: block sequences up to length 3 (quick) / 4 (thorough), line content up to 2 / 3 deviations; labels starting with a digit are not used directly after a number.", ref="3/C01"),
+ "C04": dict(technique="exhaustive enumeration of the installed name tables (all 806 EvtGen and 1014 PDG-style names, forwards/backwards and interleaved in both naming schemes because of the 64-entry cache), all multisets of <=3 names from a 12-name pool with multiplicities to 6, every EvtGen name doubled, decay modes x metadata kinds, and the CDecay table of the same decays; each chunk of calls runs as one history in a forked pristine process",
+             text="Every name is conjugated by the real utility and compared with a reference built from the raw particle data files (negated ID / self-conjugate / wrapped unknown) and conjugated back; final states, decay modes (bf, metadata, original untouched) and parser-made CDecay tables must agree with the same reference. A failure that needs earlier calls is reported as a history.",
+             note="Trusted base: the csv files shipped with particle 1.0.1; PDG-style names without an EvtGen counterpart have no known conjugate.", ref="3/C04"),
  "C05": dict(technique=DBE + " plus a metamorphic oracle (text vs. its AST-level expansion)",
              text="All files with <=k deviations from the default Define/ModelAlias scenario (placement, redefinition, 0..3 uses in 1..3 blocks, negated uses, alias parameter lists with Define'd names, copied and conjugated tables) are parsed and compared with the reference semantics, with the expanded text, and with dict_definitions/dict_model_aliases.",
              note="Bound 2 (quick) / 3 (thorough) deviations; +name, alias-of-alias and alias names equal to model names are outside the space.", ref="3/C05"),
@@ -40,6 +43,12 @@ CHECKS = {
  "C13": dict(technique="complete enumeration of single chains (as C11) x 3 name sets (parentheses, primes, signs) x 6 bracketing patterns x all input orders; oracle = independent bracket-matching reader recovering the nested multiset",
              text="Every rendered descriptor is read back by a reader that does not share code with the library and must give exactly the tree the chain was built from, for the default and user patterns (top pattern at the top, sub pattern at every nested level), and one string for every input order.",
              note="Names with unbalanced brackets of the pattern in use are outside the space.", ref="3/C13"),
+ "C15": dict(technique="complete enumeration of chain dictionaries (table-set shapes incl. 0..5 lines per particle, repeated decaying daughters, empty tables, zero-daughter lines, EvtGen-specific spellings; all single chains with <=3 decaying particles through the class form) read back through `dot -Tdot_json`; explicit-state exploration of all sessions of <=3 (4) viewers in one forked process for the identifier clause",
+             text="The DOT text of the real DecayChainViewer is parsed by Graphviz itself; the node/edge/port/label structure must be isomorphic to the reference graph (one node and one labelled edge per decay line, daughters in order), node names unique within a graph and decay-line node ids disjoint across the graphs of a session.",
+             note="Trusted base: graphviz 2.43 as the reader of DOT; cell texts use particle's own LaTeX->HTML conversion.", ref="3/C15"),
+ "C16": dict(technique="complete product: 8 branching-fraction patterns (ties, ties at the maximum, 1e-12..1, 7+ digits) x 6 table lengths x 3 line-content variants x 48 option combinations + 7 invalid ones; oracle with exact Fractions and a 7-significant-digit comparison",
+             text="Every printed table of the real print_decay_modes is parsed row by row and compared with the reference rows (order by bf in the requested direction, file order among ties, one row per line, daughters/model/PHOTOS/parameters tokens, value within half a unit of the 7th digit of bf, bf/sum or bf*scale/max); invalid options must raise RuntimeError and stored values must be unchanged.",
+             note="Tables without lines and zero branching fractions are outside the space.", ref="3/C16"),
  "C14": dict(technique="explicit-state BFS over call histories of the real DescriptorFormat (state hashing on config + hidden per-object state) against a stack reference model; second driver through real with-blocks",
              text="Every history of create/enter/leave/leave-by-exception/set/invalid-set operations up to the stated length (all histories up to the forced depth, state-hashed beyond) is executed on the real class and compared after every step with a stack model of the format in force; bounded exhaustive, no sampling.",
              note="Bounded by history length and at most 3 context objects; two valid and eight invalid pattern pairs.", ref="3/C14"),
